@@ -24,8 +24,8 @@ VARIANT = [0]
 D1, D2, D3 = date(2020, 1, 2), date(2021, 3, 4), date(1999, 9, 9)
 T1, T2, T3 = datetime(2020, 1, 2, 3, 4), datetime(2021, 3, 4, 5, 6), datetime(1999, 9, 9, 9, 9)
 BASE = {
-    "bool": [True, False, True], "int": [10, 11, 12], "float": [0.5, 1.5, 2.5], "complex": [1j, 2j, 3j],
-    "str": ["a", "b", "c"], "date": [D1, D2, D3], "datetime": [T1, T2, T3], "object": [1, "a", 2.5],
+    "bool": [True, False, True, False], "int": [10, 11, 12, 13], "float": [0.5, 1.5, 2.5, 3.5], "complex": [1j, 2j, 3j, 4j],
+    "str": ["a", "b", "c", "d"], "date": [D1, D2, D3, D1], "datetime": [T1, T2, T3, T1], "object": [1, "a", 2.5, b"x"],
 }
 KIND = {"bool": bool, "int": int, "float": float, "complex": complex, "str": str, "date": date, "datetime": datetime, "object": object}
 SCALARS = [True, 7, 7.5, 7j, "z", b"q", D3, T3, None]
@@ -640,7 +640,7 @@ def run_unit(unit):
 
 
 def check(ctx):
-    N = ctx.pick(3, 3)
+    N = ctx.pick(3, 4)
     units = [("vec", k, nl, n) for k in BASE for nl in (False, True) for n in range(0, N + 1)]
     units += [("tab",)] + [("ren", w) for w in (1, 2, 3)]
     agg = core.merge_all(core.pmap(run_unit, units))
